@@ -387,13 +387,18 @@ theorem reshape_mismatch (st : St) (t : Dense) (dims : List Int)
 
 theorem reshape_plain' (st : St) (t : Dense) (dims : List Int)
     (hsz : totalSize t.shape = totalSize dims) (hold : t.old = none) (hv : t.view = false)
-    (hlen : (t.win.len : Int) = totalSize dims) (hne : dims ≠ []) :
+    (hlen : (t.win.len : Int) = totalSize dims) (hst : t.ap.strides = Dense.defaultStrides t.ap.o.col t.shape)
+    (hne : dims ≠ []) :
     t.reshape st dims = .ok (.ok st { t with
       ap := { t.ap with shape := dims, strides := Dense.defaultStrides t.ap.o.col dims, fin := true } }) := by
   unfold Dense.reshape
   have h1 : (totalSize t.shape != totalSize dims) = false := by simpa using hsz
   have h2 : dims.isEmpty = false := by cases dims <;> simp_all
-  simp [h1, hold, hv, hlen, h2, bind, Except.bind, pure, Except.pure]
+  have h3 : t.hasDefaultLayout = true := by
+    unfold Dense.hasDefaultLayout
+    rw [← hst, hlen, hsz]
+    simp
+  simp [h1, hold, hv, hlen, h2, h3, bind, Except.bind, pure, Except.pure]
 
 /-! ### the covering invariant -/
 
